@@ -94,8 +94,31 @@ def cconform(v, wd, name, c, schedules, invs=CINVS[:5], max_failures=3, page_siz
                    "what": what, "trace_module": "TraceCloud.tla", "invariants": invs,
                    "constants": {k2: sorted(v2) if isinstance(v2, (set, frozenset)) else v2
                                  for k2, v2 in tc.items()}}
-        p = write_replay(v.pid, f"{name}-b{bid}", payload)
-        v.violations.append((what, p))
+        drift = False
+        if not r["violated"]:
+            # property level (DESIGN.md 4.5): judge the recorded store and return values only
+            one = os.path.join(wd, f"{name}.b{bid}.ndjson")
+            with open(one, "w") as f:
+                f.writelines(lines)
+            ocfg = write_cfg(os.path.join(wd, name + ".obs.cfg"),
+                             {"Clients": c["Clients"], "MaxVer": 60}, spec="OSpec",
+                             invariants=[i for i in invs if i != "TypeOK"] ,
+                             postcondition="Accepted")
+            ro = tlc_trace(wd, name + ".obs", "ObsCloud.tla", ocfg, one)
+            drift = ro["accepted"]
+            payload["property_level"] = {"accepted": ro["accepted"], "rejected_event": ro["event"],
+                                         "invariant": ro["violated"]}
+            if not drift and (ro["timed_out"] or (ro["rejected_at"] is None and not ro["violated"])):
+                v.tool_errors.append(f"{name}: property-level validation did not finish "
+                                     f"(see {ro['out']})")
+        if drift:
+            v.drift.append(f"{name} behaviour {bid}: {json.dumps(r['event'])[:200]} is not the request "
+                           f"CloudStore issues next, but the behaviour satisfies the property-level "
+                           f"specification ObsCloud")
+            write_replay(v.pid, f"{name}-b{bid}-drift", payload)
+        else:
+            p = write_replay(v.pid, f"{name}-b{bid}", payload)
+            v.violations.append((what, p))
         failures += 1
         bs = split_behaviours(cur)
         nxt = os.path.join(wd, f"{name}.trace.{failures}.ndjson")
